@@ -8,21 +8,30 @@
     as a branch target: [dot] the Graphviz identifier (with its quotes),
     [mer] the Mermaid label text (without the quotes Mermaid statements put
     around it).  A case [mk_ttnid num id] is the id Mermaid wrote for the
-    [num]-th node it declared.
+    [num]-th node it declared.  A case [mk_ttlabel name label] is the text Go
+    wrote for the name inside the HTML-like label of the Graphviz node (or
+    placeholder) statement, [mk_ttdoc doc text] the text it wrote there for
+    a doc string.
 
     [toolstext_mismatches]: the Go text is not [dot_id name] /
-    [mermaid_text name] / [mermaid_nid num] of Model/ToolsText.v.
+    [mermaid_text name] / [mermaid_nid num] / [dot_label_name name] /
+    [dot_html doc] of Model/ToolsText.v.
     [toolstext_violations]: the property decided on the Go text alone: the
     identifier reads back as the name ([dot_unquote]) and is one well-formed
     quoted string ([dot_quoted_ok]); the Mermaid text reads back as the name
-    and holds no quote; the id reads back as the number; and no two cases
+    and holds no quote; the id reads back as the number; the label text is
+    passed over by the bracket-counting reader, which stops at the closing
+    bracket that follows it ([html_scan]), and reads back as the name
+    ([html_unescape]); and no two cases
     of the file with different names (numbers) were given the same
     identifier, label text or id. *)
 From Sheens Require Export Corr.Base Model.ToolsText Proofs.ToolsTextProofs.
 
 Inductive ttcase : Type :=
 | mk_ttcase (name dot mer : string)
-| mk_ttnid (num : Z) (id : string).
+| mk_ttnid (num : Z) (id : string)
+| mk_ttlabel (name label : string)
+| mk_ttdoc (doc text : string).
 
 (** a string given by its bytes (for names that are not printable ASCII) *)
 Definition sb (bytes : list Z) : string :=
@@ -36,6 +45,8 @@ Definition tt_agrees (c : ttcase) : bool :=
   match c with
   | mk_ttcase name dot mer => String.eqb (dot_id name) dot && String.eqb (mermaid_text name) mer
   | mk_ttnid num id => String.eqb (mermaid_nid (Z.to_nat num)) id
+  | mk_ttlabel name label => String.eqb (dot_label_name name) label
+  | mk_ttdoc doc text => String.eqb (dot_html doc) text
   end.
 
 Definition toolstext_mismatches (cases : list ttcase) : list nat :=
@@ -54,10 +65,20 @@ Definition tt_nid_ok (num : Z) (id : string) : bool :=
   | None => false
   end.
 
+(** the label text alone, followed by the closing bracket, is exactly one
+    bracketed string, and it reads back as the name *)
+Definition tt_label_ok (name label : string) : bool :=
+  match html_scan 1 (label ++ String rangle EmptyString) with
+  | Some EmptyString => opt_str_eqb (html_unescape label) name
+  | _ => false
+  end.
+
 Definition tt_ok (c : ttcase) : bool :=
   match c with
   | mk_ttcase name dot mer => tt_dot_ok name dot && tt_mer_ok name mer
   | mk_ttnid num id => tt_nid_ok num id
+  | mk_ttlabel name label => tt_label_ok name label
+  | mk_ttdoc doc text => tt_label_ok doc text
   end.
 
 (** two different names (numbers) with one rendering *)
@@ -66,6 +87,8 @@ Definition tt_collide (a b : ttcase) : bool :=
   | mk_ttcase n d m, mk_ttcase n' d' m' =>
       negb (String.eqb n n') && (String.eqb d d' || String.eqb m m')
   | mk_ttnid k i, mk_ttnid k' i' => negb (Z.eqb k k') && String.eqb i i'
+  | mk_ttlabel n l, mk_ttlabel n' l' => negb (String.eqb n n') && String.eqb l l'
+  | mk_ttdoc n l, mk_ttdoc n' l' => negb (String.eqb n n') && String.eqb l l'
   | _, _ => false
   end.
 
@@ -87,23 +110,30 @@ Definition toolstext_mer_violations (cases : list ttcase) : list nat :=
   bad_indexes (fun c => match c with mk_ttcase n _ m => negb (tt_mer_ok n m) | _ => false end) 0 cases.
 Definition toolstext_nid_violations (cases : list ttcase) : list nat :=
   bad_indexes (fun c => match c with mk_ttnid k i => negb (tt_nid_ok k i) | _ => false end) 0 cases.
+Definition toolstext_label_violations (cases : list ttcase) : list nat :=
+  bad_indexes (fun c => match c with
+                        | mk_ttlabel n l | mk_ttdoc n l => negb (tt_label_ok n l)
+                        | _ => false
+                        end) 0 cases.
 
 (** a case is non-trivial when the name holds a byte that has to be escaped
-    somewhere (quote, backslash, hash) or is an id of two digits or more *)
+    there (quote, backslash, hash; ampersand or angle bracket in a label) or
+    is an id of two digits or more *)
 Definition tt_nontrivial_case (c : ttcase) : bool :=
   match c with
   | mk_ttcase n _ _ => has_char dquote n || has_char bslash n || has_char hash n
   | mk_ttnid k _ => (10 <=? k)%Z
+  | mk_ttlabel n _ | mk_ttdoc n _ => has_char amp n || has_char langle n || has_char rangle n
   end.
 Definition toolstext_nontrivial (cases : list ttcase) : nat := count_true tt_nontrivial_case cases.
 
-(** names whose Graphviz label (the raw name inside label=<...>) does not
-    end where Dot ends it: not part of the oracle, counted for the report
-    (Proofs/ToolsTextProofs.v, [dot_label_stays_inside_refuted]) *)
+(** label texts written by Go that do not end where Dot ends them (the
+    bracket-counting part of [tt_label_ok] alone): 0 since the repair D55;
+    before it, every name with an angle bracket *)
 Definition tt_label_breaks (c : ttcase) : bool :=
   match c with
-  | mk_ttcase n _ _ =>
-      match html_scan 1 (dot_label_name n ++ String rangle EmptyString) with
+  | mk_ttlabel _ l | mk_ttdoc _ l =>
+      match html_scan 1 (l ++ String rangle EmptyString) with
       | Some EmptyString => false
       | _ => true
       end
@@ -131,6 +161,28 @@ Proof.
   intros. cbn [tt_ok tt_agrees]. unfold tt_nid_ok.
   rewrite mermaid_unnid_nid, Nat2Z.id, Nat.eqb_refl, String.eqb_refl.
   split; [|reflexivity]. cbn [andb]. apply Z.leb_le. apply Nat2Z.is_nonneg.
+Qed.
+
+Theorem tt_model_label_passes : forall name,
+  tt_ok (mk_ttlabel name (dot_label_name name)) = true /\
+  tt_agrees (mk_ttlabel name (dot_label_name name)) = true /\
+  tt_ok (mk_ttdoc name (dot_html name)) = true /\
+  tt_agrees (mk_ttdoc name (dot_html name)) = true.
+Proof.
+  intros. cbn [tt_ok tt_agrees]. unfold tt_label_ok.
+  change (dot_html name) with (dot_label_name name).
+  rewrite (dot_label_stays_inside_holds name EmptyString), dot_label_readable_back.
+  rewrite opt_str_eqb_some, String.eqb_refl. repeat split.
+Qed.
+
+Theorem tt_label_ok_sound : forall name label,
+  tt_ok (mk_ttlabel name label) = true ->
+  html_scan 1 (label ++ String rangle EmptyString) = Some EmptyString /\ html_unescape label = Some name.
+Proof.
+  intros name label H. cbn [tt_ok] in H. unfold tt_label_ok in H.
+  destruct (html_scan 1 (label ++ String rangle EmptyString)) as [[|]|]; try discriminate.
+  split; [reflexivity|]. unfold opt_str_eqb in H.
+  destruct (html_unescape label) as [x|]; [|discriminate]. apply String.eqb_eq in H. now subst.
 Qed.
 
 (** what the oracle accepts: the text determines the name *)
